@@ -512,7 +512,12 @@ func c17Schedules(rep *report.Report, bound int, thorough bool) {
 				vsync.Go0(func() {
 					if err := db.View(func(tx *bbolt.Tx) error {
 						cur.begin[0] = w.readTuple(tx, noYield)
-						cur.tuple = w.readTuple(tx, vsync.Yield)
+						if !thorough && (v.snapshot || v.rootUser || v.snapInTx) {
+							vsync.Yield("reader:in-tx")
+							cur.tuple = w.readTuple(tx, noYield) // quick, four threads: one yield point inside the read transaction
+						} else {
+							cur.tuple = w.readTuple(tx, vsync.Yield)
+						}
 						return nil
 					}); err != nil {
 						cur.errs = append(cur.errs, "reader: "+err.Error())
@@ -524,6 +529,11 @@ func c17Schedules(rep *report.Report, bound int, thorough bool) {
 					vsync.Go0(func() {
 						if err := db.Update(boltz.NewMutateContext(context.Background()), func(ctx boltz.MutateContext) error {
 							cur.begin[1] = w.readTuple(ctx.Tx(), noYield)
+							if !thorough && (v.snapshot || v.rootUser || v.snapInTx) {
+								// quick, four threads: the writer's transaction body has no inner yield points (its lock
+								// operations in DbImpl and bbolt remain scheduling points)
+								return w.tx2(ctx, noYield)
+							}
 							return w.tx2(ctx, vsync.Yield)
 						}); err != nil {
 							cur.errs = append(cur.errs, "writer: "+err.Error())
@@ -568,6 +578,10 @@ func c17Schedules(rep *report.Report, bound int, thorough bool) {
 			rep.Count("transitions", int64(x.Steps))
 			replay := map[string]interface{}{"variant": v.name, "choices": x.Choices(), "schedule": x.Schedule()}
 			defer func() { _ = cur.db.Close() }()
+			if len(x.Detached) > 0 {
+				rep.Count("executions_with_a_thread_blocked_outside_the_scheduler", 1)
+				replay["blocked_outside_scheduler"] = x.Detached
+			}
 			switch {
 			case x.Hung != "":
 				rep.Capped("execution blocked outside the scheduler: " + x.Hung)
